@@ -544,7 +544,7 @@ async fn peer_writer(
                     WCmd::Fin => { let _ = send.finish(); }
                     WCmd::Reset(code) => { let _ = send.reset(VarInt::from_u64(code).unwrap()); }
                     WCmd::Stopped(tx) => {
-                        let r = match tokio::time::timeout(Duration::from_secs(5), send.stopped()).await {
+                        let r = match tokio::time::timeout(STOPPED_TIMEOUT, send.stopped()).await {
                             Err(_) => "timeout".to_string(),
                             Ok(Ok(Some(c))) => format!("{}", c.into_inner()),
                             Ok(Ok(None)) => "none".into(),
@@ -637,6 +637,11 @@ fn data_res(r: Poll<Result<Option<Bytes>, StreamErrorIncoming>>, h: &mut Hash) -
 }
 
 const OP_TIMEOUT: Duration = Duration::from_secs(5);
+/// How long the raw peer's writer waits to be told to stop (`pstopped`).  A STOP_SENDING that was sent crosses the
+/// loopback in well under a millisecond; one that was not sent never comes, and the specification now calls that a
+/// failure (reading R-17), so a broken adapter makes MANY cases wait this long: keep it well below `OP_TIMEOUT`.
+/// (A stall of the machine longer than this gives `pstopped=timeout`, and the case is run a second time.)
+const STOPPED_TIMEOUT: Duration = Duration::from_secs(2);
 
 type PTasks = Arc<std::sync::Mutex<Vec<tokio::task::AbortHandle>>>;
 
